@@ -65,3 +65,9 @@ Print Assumptions C16_treasury_query.
 Theorem C16_treasury_migrate : forall s, is_panic (tmigrate s) = false.
 Proof. exact tmigrate_no_panic. Qed.
 Print Assumptions C16_treasury_migrate.
+
+Theorem C16_treasury_admin_forever : forall va av e0 sender0 m0 s0 r0 (calls : list (tenv * string * texecute_msg)),
+  tinstantiate av e0 sender0 m0 = Ok (s0, r0) ->
+  t_admin (fold_left (fun s c => match texecute va av s (fst (fst c)) (snd (fst c)) (snd c) with Ok (s', _) => s' | _ => s end) calls s0) <> None.
+Proof. exact treasury_admin_forever. Qed.
+Print Assumptions C16_treasury_admin_forever.
